@@ -3786,6 +3786,8 @@ FILES += [
         {"file": RW, "fn": "centered_binomial", "mod": "sample", "model": "Rng.centeredBinomial"},
         {"file": RW, "fn": "ternary", "mod": "sample", "model": "Rng.ternary"},
         {"file": RW, "fn": "uniform", "mod": "sample", "model": "Rng.uniformPoly"},
+        {"file": "src/text.rs", "fn": "contains_seed", "impl": "ExpandSeed for Ciphertext", "skeleton": "contains_seed",
+         "consts": {"HE_CIPHERTEXT_SIZE_MIN": UB, "CIPHERTEXT_SEED_FLAG": ("src/text.rs", "u64")}, "model": "size = 2 and c1[0] = flag"},
         {"file": "src/text.rs", "fn": "expand_seed", "impl": "ExpandSeed for Ciphertext", "skeleton": "expand_seed", "model": "Encrypt.expandSeed (skeleton over the flat buffer)"},
     ]}),
 ]
